@@ -359,6 +359,8 @@ class SafeLearner(Learner):
         if self._pred_batch == 'col':
             kwargs = pred[-1] if self._pred_kwargs else {}
             pred   = pred[:-1] if self._pred_kwargs else pred
+            #without its kwargs an action column or an explicit dict is still wrapped in a one item sequence
+            pred   = pred[0] if self._pred_kwargs and self._pred_format in ['AX','AX*','AP*','PM*'] else pred
 
             if self._pred_format.endswith('*'):
                 pred = list(pred.values())[0]
